@@ -244,14 +244,13 @@ def wrap_and_ancestor(prog, rep, tag):
         return any(x[0] == "call" and x[1].split("::")[-1] in ("find", "rfind", "get", "nth", "position") for x in rs) or has_root(rs, "arg", 2) or has_root(rs, "field", "SubDevice", "parent_index")
 
     uses = [c for c in b.calls() if c.is_("Ports::total_propagation_time", "Ports::propagation_time_to", "Ports::intermediate_propagation_time_to", "Ports::topology") and upstream(pr.of_operand(c.args[0]))]
-    guards = []
-    for cd in q.conds(b):
-        if cd.kind == "call" and cd.call is not None and (cd.call.decl_s or "").endswith("DcSupport::any") and upstream(pf.of_operand(cd.call.args[0])):
-            guards.append(cd)
+    # feasibility instead of dominance: the walk may live in a helper that hands the ancestor back in an Option (the
+    # `any()` verdict then reaches the uses through `Some(..)` / `?`); a device for which any() was false must not be
+    # measured from in the same round of the walk
+    guards = [c for c in b.calls() if (c.decl_s or "").endswith("DcSupport::any") and upstream(pf.of_operand(c.args[0])) and c.target is not None and not c.dest["p"]]
     good = bool(uses) and len(guards) >= 1
-    if good:
-        dom = set()
-        for cd in guards:
-            dom |= q.edge_dominated(b, cd.bb, cd.true_target())
-        good = all(c.bb in dom for c in uses)
+    for c in guards:
+        no = q.BoolFlow(b, c.target, 0, {c.dest["l"]: 0}, avoid={c.bb})
+        yes = q.BoolFlow(b, c.target, 0, {c.dest["l"]: 1}, avoid={c.bb})
+        good = good and not any(u.bb in no.in_state for u in uses) and any(u.bb in yes.in_state for u in uses)
     rep.ob(P2, "measured-from-dc-capable-upstream" + tag, good, "configure_subdevice_offsets reads port times of an upstream SubDevice only where dc_support().any() held for it (%d uses, %d guards): a non-DC device in between is walked past instead of contributing all-zero latches" % (len(uses), len(guards)), loc=b.span)
